@@ -1,0 +1,51 @@
+//go:build verif
+
+// Contracts for native-contract helpers, read by /verif/gocv.
+package utils
+
+// ConcatKey: the abstract key of the concatenation is the constructor of its arity applied to
+// the contract address and the byte strings of the arguments. That two different constructor
+// applications never denote the same flat byte string is property C17 (string-theory
+// obligations over every key template of the code base); here it is the datatype's freeness.
+//@ func ConcatKey
+//@   trusted   -- flat result = contract ++ args... (append loop); abstraction justified by the C17 key lemmas
+//@   ensures len(args) == 0 ==> keyOf(bytes(result)) == K0(contract)
+//@   ensures len(args) == 1 ==> keyOf(bytes(result)) == K1(contract, args[0])
+//@   ensures len(args) == 2 ==> keyOf(bytes(result)) == K2(contract, args[0], args[1])
+//@   ensures len(args) == 3 ==> keyOf(bytes(result)) == K3(contract, args[0], args[1], args[2])
+//@   ensures len(args) == 4 ==> keyOf(bytes(result)) == K4(contract, args[0], args[1], args[2], args[3])
+//@   ensures len(args) == 5 ==> keyOf(bytes(result)) == K5(contract, args[0], args[1], args[2], args[3], args[4])
+//@   ensures len(result) >= 20
+//@   fresh result
+
+//@ func GetUint64Bytes
+//@   property C17
+//@   ensures len(result) == 8 && common.le64(result, 0) == num
+//@   assumes bytes(result) == u64le(num)   -- u64le names the 8-byte little-endian string whose bytes the clause above pins down
+//@   fresh result
+
+//@ func GetUint32Bytes
+//@   property C17
+//@   ensures len(result) == 4 && common.le32(result, 0) == num
+//@   assumes bytes(result) == u32le(num)
+//@   fresh result
+
+//@ func GetBytesUint64
+//@   property C17
+//@   ensures len(b) == 8 ==> result == common.le64(b, 0)
+//@   ensures len(b) != 8 ==> result == 0
+//@   assumes len(b) == 8 ==> bytes(b) == u64le(result)
+
+//@ func GetBytesUint32
+//@   property C17
+//@   ensures len(b) == 4 ==> result == common.le32(b, 0)
+//@   ensures len(b) != 4 ==> result == 0
+//@   assumes len(b) == 4 ==> bytes(b) == u32le(result)
+
+// witnessed(native, a): a signed the transaction or is the immediately calling contract
+//@ spec witnessed(native *native.NativeService, a common.Address) bool = (sigAddrSetOK(ref(native.tx)) && sigAddrSet(ref(native.tx), a)) || (len(native.contexts) >= 2 && native.contexts[len(native.contexts)-2] != common.ADDRESS_EMPTY && native.contexts[len(native.contexts)-2] == a)
+
+//@ func ValidateOwner
+//@   property C18
+//@   requires native != nil && native.tx != nil
+//@   ensures result == nil <==> witnessed(native, address)
